@@ -24,7 +24,10 @@ theorem bindPos_names (ps : List Param) (k i : Nat) :
   | cons p ps ih =>
     cases k with
     | zero => simp [bindPos]
-    | succ k => simp [bindPos, names, ih] ; exact ih k (i + 1)
+    | succ k =>
+      have := ih k (i + 1)
+      simp only [names] at this
+      simp [bindPos, names, this]
 
 theorem bindPos_length (ps : List Param) (k i : Nat) (hk : k ≤ ps.length) :
     (bindPos ps k i).length = k := by
@@ -47,18 +50,390 @@ theorem lookup_bindPos (ps : List Param) (hnd : (names ps).Nodup) (k i0 : Nat) (
         simp [bindPos, lookup]
       | succ i =>
         simp at hp
-        have hnd' : (names ps).Nodup := by
-          simp [names] at hnd ⊢; exact hnd.2
+        have hc : names (q :: ps) = q.1 :: names ps := rfl
+        rw [hc] at hnd
+        have hnd' : (names ps).Nodup := (List.nodup_cons.mp hnd).2
         have hne : q.1 ≠ p.1 := by
-          simp [names] at hnd
           intro he
-          have : p ∈ ps := List.mem_of_getElem? hp
-          exact hnd.1 p.2 (by rw [he]; cases p; exact this)
+          have hm : p ∈ ps := List.mem_of_getElem? hp
+          have : p.1 ∈ names ps := List.mem_map_of_mem (f := (·.1)) hm
+          exact (List.nodup_cons.mp hnd).1 (he ▸ this)
         have := ih hnd' k (i0 + 1) i hp (by omega)
         simp only [bindPos, List.cons_append, lookup, List.find?_cons]
         have hb : (q.1 == p.1) = false := by simpa using hne
         simp only [hb]
         simp only [lookup] at this
         rw [this]; congr 2; omega
+
+
+/-! #### named -/
+
+def namedEnv : List String → Nat → List (String × Src)
+  | [], _ => []
+  | n :: r, j => (n, .named j) :: namedEnv r (j + 1)
+
+theorem namedEnv_names (named : List String) (j : Nat) : (namedEnv named j).map (·.1) = named := by
+  induction named generalizing j with
+  | nil => rfl
+  | cons n r ih => simp [namedEnv, ih]
+
+theorem bindNamed_ok_iff (ps : List Param) (env : List (String × Src)) (named : List String) (j : Nat)
+    (env' : List (String × Src)) :
+    bindNamed ps env named j = .ok env' ↔
+      ((∀ n ∈ named, n ∈ names ps) ∧ (∀ n ∈ named, has env n = false) ∧ named.Nodup
+        ∧ env' = env ++ namedEnv named j) := by
+  induction named generalizing env j with
+  | nil =>
+    simp only [bindNamed, namedEnv, List.append_nil, List.not_mem_nil, false_imp_iff, implies_true,
+      List.nodup_nil, true_and]
+    constructor
+    · intro h; cases h; rfl
+    · intro h; rw [h]
+  | cons n r ih =>
+    simp only [bindNamed]
+    by_cases h1 : (names ps).contains n = true
+    · simp only [h1, Bool.not_true, Bool.false_eq_true, ↓reduceIte]
+      by_cases h2 : has env n = true
+      · simp only [h2, ↓reduceIte]
+        constructor
+        · intro h; cases h
+        · rintro ⟨_, hh, _, _⟩
+          have := hh n (by simp)
+          rw [h2] at this; cases this
+      · simp only [h2, Bool.false_eq_true, ↓reduceIte]
+        rw [ih]
+        have h1' : n ∈ names ps := by simpa using h1
+        have h2' : has env n = false := by simpa using h2
+        constructor
+        · rintro ⟨ha, hb, hc, hd⟩
+          refine ⟨?_, ?_, ?_, ?_⟩
+          · intro m hm
+            rcases List.mem_cons.mp hm with e | hm
+            · subst e; exact h1'
+            · exact ha m hm
+          · intro m hm
+            rcases List.mem_cons.mp hm with e | hm
+            · subst e; exact h2'
+            · have := hb m hm
+              rw [has_append] at this
+              simpa using (Bool.or_eq_false_iff.mp this).1
+          · refine List.nodup_cons.mpr ⟨?_, hc⟩
+            intro hm
+            have := hb n hm
+            rw [has_append] at this
+            have h3 := (Bool.or_eq_false_iff.mp this).2
+            simp [has] at h3
+          · rw [hd]; simp [namedEnv, List.append_assoc]
+        · rintro ⟨ha, hb, hc, hd⟩
+          have hc' := List.nodup_cons.mp hc
+          refine ⟨?_, ?_, hc'.2, ?_⟩
+          · intro m hm; exact ha m (List.mem_cons_of_mem _ hm)
+          · intro m hm
+            rw [has_append]
+            have h3 : has env m = false := hb m (List.mem_cons_of_mem _ hm)
+            have h4 : has [(n, Src.named j)] m = false := by
+              simp only [has, List.any_cons, List.any_nil, Bool.or_false, beq_eq_false_iff_ne, ne_eq]
+              intro e; subst e; exact hc'.1 hm
+            simp [h3, h4]
+          · rw [hd]; simp [namedEnv, List.append_assoc]
+    · simp only [h1, Bool.not_false, ↓reduceIte]
+      constructor
+      · intro h; cases h
+      · rintro ⟨ha, _⟩
+        have := ha n (by simp)
+        exact absurd (by simpa using this) h1
+
+
+/-! #### lookup -/
+
+theorem lookup_append_of_not_has (a b : List (String × Src)) (n : String) (h : has a n = false) :
+    lookup (a ++ b) n = lookup b n := by
+  induction a with
+  | nil => rfl
+  | cons x r ih =>
+    simp only [has, List.any_cons, Bool.or_eq_false_iff] at h
+    have hr : has r n = false := h.2
+    simp only [List.cons_append, lookup, List.find?_cons, h.1]
+    exact ih hr
+
+theorem lookup_none_of_not_has (a : List (String × Src)) (n : String) (h : has a n = false) :
+    lookup a n = none := by
+  have := lookup_append_of_not_has a [] n h
+  simpa [lookup] using this
+
+theorem lookup_namedEnv (named : List String) (j : Nat) (n : String) (rest : List (String × Src)) :
+    lookup (namedEnv named j ++ rest) n =
+      match indexOf? named n with
+      | some k => some (.named (j + k))
+      | none => lookup rest n := by
+  induction named generalizing j with
+  | nil => simp [namedEnv, indexOf?]
+  | cons m r ih =>
+    simp only [namedEnv, List.cons_append, lookup, List.find?_cons, indexOf?]
+    by_cases h : m == n
+    · simp [h]
+    · simp only [h, Bool.false_eq_true, ↓reduceIte]
+      have := ih (j + 1)
+      simp only [lookup] at this
+      rw [this]
+      cases indexOf? r n with
+      | none => rfl
+      | some k => simp; omega
+
+theorem indexOf?_isSome (l : List String) (n : String) : (indexOf? l n).isSome = l.contains n := by
+  induction l with
+  | nil => rfl
+  | cons m r ih =>
+    by_cases h : m = n
+    · subst h; simp [indexOf?]
+    · have h1 : (m == n) = false := by simpa using h
+      have h2 : (n == m) = false := by simpa using (Ne.symm h)
+      simp only [indexOf?, h1, Bool.false_eq_true, ↓reduceIte, Option.isSome_map, List.contains_cons,
+        h2, Bool.false_or]
+      exact ih
+
+theorem has_cons (x : String × Src) (l : List (String × Src)) (n : String) :
+    has (x :: l) n = (x.1 == n || has l n) := by simp [has]
+
+/-! #### defaults -/
+
+theorem has_bindDefaults (passed : List (String × Src)) (ps : List Param) (n : String) :
+    has (bindDefaults passed ps) n = ps.any (fun p => p.1 == n && (p.2 && !has passed p.1)) := by
+  induction ps with
+  | nil => rfl
+  | cons p r ih =>
+    simp only [bindDefaults, List.any_cons]
+    split
+    · rename_i h
+      rw [has_cons, ih, h]; simp
+    · rename_i h
+      have h' : (p.2 && !has passed p.1) = false := by simpa using h
+      rw [ih, h']; simp
+
+theorem lookup_bindDefaults (passed : List (String × Src)) (ps : List Param) (p : Param)
+    (hp : p ∈ ps) (hnd : (names ps).Nodup) :
+    lookup (bindDefaults passed ps) p.1 = if p.2 && !has passed p.1 then some .dflt else none := by
+  induction ps with
+  | nil => cases hp
+  | cons q r ih =>
+    have hc : names (q :: r) = q.1 :: names r := rfl
+    rw [hc] at hnd
+    have hnd' := (List.nodup_cons.mp hnd)
+    rcases List.mem_cons.mp hp with e | hm
+    · subst e
+      simp only [bindDefaults]
+      by_cases h : (p.2 && !has passed p.1) = true
+      · simp [h, lookup]
+      · simp only [h, Bool.false_eq_true, ↓reduceIte]
+        apply lookup_none_of_not_has
+        rw [has_bindDefaults]
+        apply List.any_eq_false.mpr
+        intro x hx
+        have hne : x.1 ≠ p.1 := by
+          intro e
+          exact hnd'.1 (e ▸ List.mem_map_of_mem (f := (·.1)) hx)
+        have : (x.1 == p.1) = false := by simpa using hne
+        simp [this]
+    · have hne : q.1 ≠ p.1 := by
+        intro e
+        exact hnd'.1 (e ▸ List.mem_map_of_mem (f := (·.1)) hm)
+      simp only [bindDefaults]
+      split
+      · simp only [lookup, List.find?_cons]
+        have : (q.1 == p.1) = false := by simpa using hne
+        simp only [this]
+        have := ih hm hnd'.2
+        simpa [lookup] using this
+      · exact ih hm hnd'.2
+
+
+/-! #### counting: named arguments and the parameters beyond the positional prefix -/
+
+structure NamedWF (ps : List Param) (npos : Nat) (named : List String) : Prop where
+  nd : named.Nodup
+  sub : ∀ n ∈ named, n ∈ names ps
+  disj : ∀ n ∈ named, n ∉ (names ps).take npos
+
+theorem named_subset_drop {ps : List Param} {npos : Nat} {named : List String}
+    (w : NamedWF ps npos named) : named ⊆ (names ps).drop npos := by
+  intro n hn
+  have h1 := w.sub n hn
+  rw [← List.take_append_drop npos (names ps)] at h1
+  rcases List.mem_append.mp h1 with h | h
+  · exact absurd h (w.disj n hn)
+  · exact h
+
+theorem named_length_le {ps : List Param} {npos : Nat} {named : List String}
+    (w : NamedWF ps npos named) (hle : npos ≤ ps.length) : named.length + npos ≤ ps.length := by
+  have := (List.subperm_of_subset w.nd (named_subset_drop w)).length_le
+  simp [names] at this
+  omega
+
+theorem named_covers_of_length {ps : List Param} {npos : Nat} {named : List String}
+    (w : NamedWF ps npos named) (hle : npos ≤ ps.length) (hlen : ps.length ≤ named.length + npos) :
+    ∀ n ∈ (names ps).drop npos, n ∈ named := by
+  have sp := List.subperm_of_subset w.nd (named_subset_drop w)
+  have hp := sp.perm_of_length_le (by simp [names]; omega)
+  intro n hn
+  exact hp.mem_iff.mpr hn
+
+theorem named_length_of_covers {ps : List Param} {npos : Nat} {named : List String}
+    (w : NamedWF ps npos named) (hnd : (names ps).Nodup) (hle : npos ≤ ps.length)
+    (hc : ∀ n ∈ (names ps).drop npos, n ∈ named) : named.length + npos = ps.length := by
+  have h1 := named_length_le w hle
+  have ndd : ((names ps).drop npos).Nodup := (List.drop_sublist npos _).nodup hnd
+  have := (List.subperm_of_subset ndd hc).length_le
+  simp [names] at this
+  omega
+
+theorem firstUnbound_none_iff (named : List String) (qs : List Param) :
+    firstUnbound named qs = none ↔ ∀ p ∈ qs, p.1 ∈ named := by
+  induction qs with
+  | nil => simp [firstUnbound]
+  | cons q r ih =>
+    simp only [firstUnbound]
+    by_cases h : named.contains q.1 = true
+    · simp only [h, ↓reduceIte, ih, List.mem_cons, forall_eq_or_imp]
+      have : q.1 ∈ named := by simpa using h
+      simp [this]
+    · simp only [h, Bool.false_eq_true, ↓reduceIte, List.mem_cons, forall_eq_or_imp]
+      have : ¬ q.1 ∈ named := by simpa using h
+      simp [this]
+
+theorem mem_take_names_of_lt (ps : List Param) (npos i : Nat) (p : Param) (hp : ps[i]? = some p)
+    (hi : i < npos) : p.1 ∈ (names ps).take npos := by
+  have : (names ps)[i]? = some p.1 := by simp [names, hp]
+  apply List.mem_of_getElem? (i := i)
+  rw [List.getElem?_take]; simp [hi, this]
+
+theorem mem_drop_names_of_ge (ps : List Param) (npos i : Nat) (p : Param) (hp : ps[i]? = some p)
+    (hi : npos ≤ i) : p.1 ∈ (names ps).drop npos := by
+  have : (names ps)[i]? = some p.1 := by simp [names, hp]
+  apply List.mem_of_getElem? (i := i - npos)
+  rw [List.getElem?_drop]
+  have e : npos + (i - npos) = i := by omega
+  rw [e]; exact this
+
+theorem not_mem_take_of_ge (ps : List Param) (hnd : (names ps).Nodup) (npos i : Nat) (p : Param)
+    (hp : ps[i]? = some p) (hi : npos ≤ i) : p.1 ∉ (names ps).take npos := by
+  intro hm
+  have hd := mem_drop_names_of_ge ps npos i p hp hi
+  rw [← List.take_append_drop npos (names ps)] at hnd
+  exact (List.nodup_append.mp hnd).2.2 _ hm _ hd rfl
+
+
+/-! #### the defaults that get applied -/
+
+theorem param_inj (qs : List Param) (hq : (names qs).Nodup) :
+    ∀ a ∈ qs, ∀ b ∈ qs, a.1 = b.1 → a = b := by
+  induction qs with
+  | nil => intro a ha; cases ha
+  | cons q r ih =>
+    intro a ha b hb hab
+    have hc : names (q :: r) = q.1 :: names r := rfl
+    rw [hc] at hq
+    have hq' := List.nodup_cons.mp hq
+    rcases List.mem_cons.mp ha with ea | ha' <;> rcases List.mem_cons.mp hb with eb | hb'
+    · rw [ea, eb]
+    · exfalso; exact hq'.1 (by rw [← ea, hab]; exact List.mem_map_of_mem (f := (·.1)) hb')
+    · exfalso; exact hq'.1 (by rw [← eb, ← hab]; exact List.mem_map_of_mem (f := (·.1)) ha')
+    · exact ih hq'.2 a ha' b hb' hab
+
+theorem defaults_mem_iff (passed : List (String × Src)) (ps : List Param) (n : String) :
+    n ∈ (bindDefaults passed ps).map (·.1) ↔ ∃ x ∈ ps, x.1 = n ∧ x.2 = true ∧ has passed x.1 = false := by
+  rw [← has_iff, has_bindDefaults, List.any_eq_true]
+  constructor
+  · rintro ⟨x, hx, hxe⟩
+    simp only [Bool.and_eq_true, beq_iff_eq, Bool.not_eq_true'] at hxe
+    exact ⟨x, hx, hxe.1, hxe.2.1, hxe.2.2⟩
+  · rintro ⟨x, hx, h1, h2, h3⟩
+    subst h1
+    exact ⟨x, hx, by simp [h2, h3]⟩
+
+theorem defaults_names_nodup (passed : List (String × Src)) (qs : List Param) (hq : (names qs).Nodup) :
+    ((bindDefaults passed qs).map (·.1)).Nodup := by
+  induction qs with
+  | nil => exact List.nodup_nil
+  | cons q r ih =>
+    have hc : names (q :: r) = q.1 :: names r := rfl
+    rw [hc] at hq
+    have hq' := List.nodup_cons.mp hq
+    simp only [bindDefaults]
+    split
+    · simp only [List.map_cons]
+      refine List.nodup_cons.mpr ⟨?_, ih hq'.2⟩
+      intro hm
+      obtain ⟨x, hx, hxe, _⟩ := (defaults_mem_iff passed r q.1).mp hm
+      exact hq'.1 (hxe ▸ List.mem_map_of_mem (f := (·.1)) hx)
+    · exact ih hq'.2
+
+/-- with `passed = positional ++ named`, the named arguments and the applied defaults together
+    are a duplicate-free list of parameters beyond the positional prefix -/
+theorem named_defaults_nodup_sub {ps : List Param} {npos : Nat} {named : List String}
+    (w : NamedWF ps npos named) (hnd : (names ps).Nodup) (passed : List (String × Src))
+    (hpassed : passed = bindPos ps npos 0 ++ namedEnv named 0) :
+    (named ++ (bindDefaults passed ps).map (·.1)).Nodup
+      ∧ (named ++ (bindDefaults passed ps).map (·.1)) ⊆ (names ps).drop npos := by
+  constructor
+  · refine List.nodup_append.mpr ⟨w.nd, defaults_names_nodup passed ps hnd, ?_⟩
+    intro a ha b hb hab
+    subst hab
+    obtain ⟨x, _, hx1, _, hx3⟩ := (defaults_mem_iff passed ps a).mp hb
+    have : has passed x.1 = true := by
+      rw [has_iff, hpassed, List.map_append, namedEnv_names]
+      exact List.mem_append_right _ (hx1 ▸ ha)
+    rw [this] at hx3; cases hx3
+  · intro n hn
+    rcases List.mem_append.mp hn with h1 | h1
+    · exact named_subset_drop w h1
+    · obtain ⟨x, hx, hx1, _, hx3⟩ := (defaults_mem_iff passed ps n).mp h1
+      have hx' : x.1 ∈ names ps := List.mem_map_of_mem (f := (·.1)) hx
+      rw [← List.take_append_drop npos (names ps)] at hx'
+      rcases List.mem_append.mp hx' with h2 | h2
+      · exfalso
+        have : has passed x.1 = true := by
+          rw [has_iff, hpassed, List.map_append, bindPos_names]
+          exact List.mem_append_left _ h2
+        rw [this] at hx3; cases hx3
+      · exact hx1 ▸ h2
+
+/-- if every parameter beyond the positional prefix is named or has a default, the counters add up -/
+theorem count_full {ps : List Param} {npos : Nat} {named : List String}
+    (w : NamedWF ps npos named) (hnd : (names ps).Nodup) (hle : npos ≤ ps.length)
+    (passed : List (String × Src)) (hpassed : passed = bindPos ps npos 0 ++ namedEnv named 0)
+    (hall : ∀ i p, ps[i]? = some p → npos ≤ i → p.1 ∈ named ∨ p.2 = true) :
+    named.length + (bindDefaults passed ps).length + npos = ps.length := by
+  obtain ⟨nd, sub⟩ := named_defaults_nodup_sub w hnd passed hpassed
+  have h1 := (List.subperm_of_subset nd sub).length_le
+  have ndd : ((names ps).drop npos).Nodup := (List.drop_sublist npos _).nodup hnd
+  have sup : (names ps).drop npos ⊆ named ++ (bindDefaults passed ps).map (·.1) := by
+    intro n hn
+    obtain ⟨k, hk⟩ := List.getElem?_of_mem hn
+    rw [List.getElem?_drop] at hk
+    simp only [names, List.getElem?_map] at hk
+    cases hp : ps[npos + k]? with
+    | none => rw [hp] at hk; cases hk
+    | some p =>
+      rw [hp] at hk
+      simp only [Option.map_some, Option.some.injEq] at hk
+      subst hk
+      by_cases hin : p.1 ∈ named
+      · exact List.mem_append_left _ hin
+      · rcases hall (npos + k) p hp (by omega) with h | h
+        · exact absurd h hin
+        · apply List.mem_append_right
+          refine (defaults_mem_iff passed ps p.1).mpr ⟨p, List.mem_of_getElem? hp, rfl, h, ?_⟩
+          have hnt := not_mem_take_of_ge ps hnd npos (npos + k) p hp (by omega)
+          cases hh : has passed p.1 with
+          | false => rfl
+          | true =>
+            exfalso
+            rw [has_iff, hpassed, List.map_append, bindPos_names, namedEnv_names] at hh
+            rcases List.mem_append.mp hh with h2 | h2
+            · exact hnt h2
+            · exact hin h2
+  have h2 := (List.subperm_of_subset ndd sup).length_le
+  simp [names] at h1 h2
+  omega
 
 end JrsVerif.Bind
